@@ -1,8 +1,32 @@
 package main
 
 import (
+	"verifharness/c16"
 	"verifharness/emit"
 	"verifharness/kstatus"
 )
 
-func main() { emit.Main("C08", kstatus.RunC08) }
+func main() {
+	emit.Main("C08", func(seed int64, tier, outDir string) (*emit.Summary, error) {
+		// the watcher scripts wait out the 15 s schedule window: run them beside the main stream
+		type res struct {
+			sum *emit.Summary
+			err error
+		}
+		ch := make(chan res, 1)
+		go func() {
+			s, err := kstatus.RunC08(seed, tier, outDir)
+			ch <- res{s, err}
+		}()
+		side := emit.NewSummary("C08", seed, tier)
+		if err := c16.AddUnschedulable(side, "C08", tier, outDir); err != nil {
+			return nil, err
+		}
+		r := <-ch
+		if r.err != nil {
+			return nil, r.err
+		}
+		emit.Merge(r.sum, side)
+		return r.sum, nil
+	})
+}
